@@ -49,6 +49,7 @@ PortsFiles == { <<>>, << <<"8", "0">> >>, << <<"8", "0">>, <<"2", "2", "-", "2",
                 << <<"8", "0", ",", "8", "1">> >> }
 All == Vec("ports", PortStrs) \cup Vec("tcpflags", TcpFlagStrs) \cup Vec("ipflags", IpFlagStrs) \cup Vec("rate", RateStrs) \cup Vec("payload", PayloadStrs)
 FileVecs == {[which |-> "portsfile", lines |-> f, longAt |-> 0] : f \in PortsFiles}
+              \cup {[which |-> "portsfile", lines |-> <<>>, longAt |-> 0, big |-> n] : n \in {700, 1500}}     \* harness writes n lines 10000, 10001, ...
               \cup {[which |-> "portsfile", lines |-> f, longAt |-> k] : f \in {<< <<"8", "0">>, <<"8", "1">> >>, << <<"8", "0">> >>}, k \in 1..2}   \* harness inserts a 70 000 character line at position k
 ASSUME PrintT(<<"vectors", Cardinality(All) + Cardinality(FileVecs)>>)
 ASSUME LET S == SetToSeq(All) IN ndJsonSerialize(IOEnv.VF_OUT, S)
